@@ -1,6 +1,7 @@
 package band
 
 import (
+	"errors"
 	"time"
 
 	"github.com/brocaar/lorawan"
@@ -39,6 +40,10 @@ func (b *ism2400Band) GetPingSlotFrequency(lorawan.DevAddr, time.Duration) (uint
 }
 
 func (b *ism2400Band) GetRX1ChannelIndexForUplinkChannelIndex(uplinkChannel int) (int, error) {
+	if uplinkChannel < 0 {
+		return 0, errors.New("lorawan/band: invalid channel")
+	}
+
 	return uplinkChannel, nil
 }
 
